@@ -242,9 +242,19 @@ PROPS = {
     },
 }
 
+PROPS["C18"] = {"cmd": "bin/rtcheck.py", "technique": "TLA+ spec (spec/Outcome.tla over spec/Hannibal.tla): TLC enumerates the outcome set of each program; outcomes observed on the three real runtimes must be members"}
+PROPS["C19"] = {"cmd": "bin/typecat.py", "technique": "TLA+ model of the API's static protocol (spec/Types.tla): TLC enumerates the catalogue of well/ill-typed programs, rustc validates every case"}
+
 HOOK_COMMITS = ["ddf086f"]
 DEFAULT_TEXT = ("Bounded exhaustive model checking of the property's invariants on the explicit TLA+ specification (all client programs over "
                 "the operation alphabet, all interleavings, within the listed constants), bound to the code by validating traces of seeded random "
                 "programs/schedules executed on the real crate against the same specification, event by event.")
-LEVEL_TEXT = {}
+LEVEL_TEXT = {
+    "C18": "Outcome-level conformance: for every program of a family covering all 13 spawn entry points TLC enumerates, on the same specification under free "
+           "interleaving, the set of terminal outcomes; the outcome observed on each real runtime (tokio, async-std, smol; harness-rt built three times, "
+           "no scheduler shim) must be a member. Step-level trace validation is not sound on multi-threaded runtimes, hence the coarser binding.",
+    "C19": "TLC explores the builder's type-state LTS (all method chains up to a bound) and the entry-point -> required-facts table under every environment "
+           "with at most one fact missing; each enumerated case is compiled by rustc against the freshly built crate: well-typed twins must compile, "
+           "ill-typed programs must be rejected with an error of the predicted class. A catalogue, not a proof about programs outside it.",
+}
 NOT_YET = {}
